@@ -101,7 +101,7 @@ pub fn property() -> Property {
             }),
             Box::new(Sub {
                 name: "real-codes",
-                rule: "the toolbox's own codes (DVB-S2 short 1/2 and 8/9, AR4JA k=1024 rate 1/2 and 4/5 with their punctured block as exact zeros), a codeword from an own encoder / null-space sample, deterministic AWGN from the case seed with sigma around the decoding threshold (0.2..2.0), limits {0,1,5,20,50}; the same validity predicate for all 36 implementations; non-trivial = limit >= 1",
+                rule: "the toolbox's own codes (DVB-S2 short 1/2 and 8/9, AR4JA k=1024 rate 1/2 and 4/5 with their punctured block as exact zeros) and a synthetic staircase code of 70 600 bits (longer than 2^16, which no code of the toolbox is), a codeword from an own encoder / null-space sample, deterministic AWGN from the case seed with sigma around the decoding threshold (0.2..2.0), limits {0,1,5,20,50}; the same validity predicate for all 36 implementations; non-trivial = limit >= 1",
                 cases: |t| t.pick(48, 2_000),
                 strategy: super::realcodes::strategy,
                 check: super::realcodes::check_c01,
